@@ -309,7 +309,7 @@ def load_units(fmt: str = "netcdf", cell: bool = True):
     G = Goals(30000)
     if len(made) != 1:
         G.add("one_trajectory", [], z3.BoolVal(False), {})
-        return G.run(None)
+        return G.run(_replay("load", fmt, cell, True, F))
     kw = made[0].kw
     native = NATIVE_ANGSTROM if fmt in NATIVE_ANGSTROM else NATIVE_NM
     inv = S.rat(0.1) if fmt in NATIVE_ANGSTROM else S.rat(1.0)
